@@ -526,7 +526,16 @@ class Interp:
             except ContinueEx:
                 pass
             raise OutOfReach("loop over the characters of a symbolic string", st)
-        items = self.iterate(it)
+        if isinstance(it, IList):
+            # a list is iterated live (by index): mutation during the loop is visible, as in CPython
+            def live():
+                k = 0
+                while k < len(it.items):
+                    yield it.items[k]
+                    k += 1
+            items = live()
+        else:
+            items = self.iterate(it)
         broke = False
         for x in items:
             self.assign(st.target, x, env)
